@@ -34,7 +34,56 @@ def auto_size_cases(ctx):
     return out
 
 
+def slack_chain_cases(ctx):
+    """damaged images on a device LARGER than the volume: the sector-rounded FAT has entries behind the last cluster (the normal case); here some of
+    them hold end marks, a directory entry names one as its first cluster, a valid chain links into one, a directory starts in one.  Such entries
+    address no cluster: every read or write through them lies behind the end of the volume.  Whatever pyfatfs answers, no access may leave the
+    volume (D38)"""
+    from .. import fatspec, history
+    out = []
+    for ft, clusters, kw in ((12, 300, {}), (16, 4100, {}), (32, 300, {}), (12, 150, dict(spc=2, nf=1))):
+        eoc = {12: 0xFFF, 16: 0xFFFF, 32: 0x0FFFFFFF}[ft]
+        nent = fatspec.build(ft, clusters=clusters, **kw)[1]["nent"]
+        maxc = clusters + 1
+        slack = [c for c in range(maxc + 1, nent)]
+        if len(slack) < 8:
+            continue
+        s1, s2, s3 = slack[1], slack[3], slack[-1]
+        base = 8 if ft == 32 else 4
+        files = [(None, b"OK      BIN", 0x20, [base], b"k" * 100),
+                 (None, b"SLACK   BIN", 0x20, [s1], b""),
+                 (None, b"LINK    BIN", 0x20, [base + 1, s2], b"l" * 10),
+                 (None, b"SLACKDIR   ", 0x10, [s3], b"")]
+        img, info = fatspec.build(ft, clusters=clusters, files=files, **kw)
+        tot = info["tot"] * (kw.get("bps", 512))
+        img = bytearray(img[:tot])
+        # sizes the damaged entries claim
+        v = fatspec.Volume(bytes(img), force_ft=32 if ft == 32 else None)
+        ro = (v.rsvd + v.nfats * v.fatsz) * v.bps if ft != 32 else ((2 - 2) * v.spc + v.fds) * v.bps
+        for k in range(4):
+            e = ro + 32 * k
+            if img[e:e + 11] == b"SLACK   BIN":
+                img[e + 28:e + 32] = (300).to_bytes(4, "little")
+            if img[e:e + 11] == b"LINK    BIN":
+                img[e + 28:e + 32] = (v.bpc + 40).to_bytes(4, "little")
+        ops = [["listdir", "/"], ["getsize", "/SLACK.BIN"], ["readbytes", "/SLACK.BIN"], ["readbytes", "/LINK.BIN"], ["listdir", "/SLACKDIR"],
+               ["open", "h0", "/SLACK.BIN", "r+"], ["write", "h0", "5a" * 64], ["hclose", "h0"],
+               ["open", "h1", "/LINK.BIN", "a"], ["write", "h1", "5b" * (2 * v.bpc)], ["hclose", "h1"],
+               ["open", "h2", "/LINK.BIN", "r+"], ["seek", "h2", v.bpc + 4], ["write", "h2", "5c" * 16], ["hclose", "h2"],
+               ["makedir", "/SLACKDIR/X"], ["create", "/SLACKDIR/Y.TXT"], ["remove", "/SLACK.BIN"], ["removetree", "/SLACKDIR"],
+               ["readbytes", "/OK.BIN"], ["open", "h3", "/OK.BIN", "a"], ["write", "h3", "6b" * 700], ["hclose", "h3"], ["readbytes", "/OK.BIN"],
+               ["closefs"]]
+        meta = dict(source="build", ft=ft, clusters=clusters, damaged="chains into the FAT entries behind the last cluster", slack=[s1, s2, s3], **kw)
+        for off in (0, 1536):
+            out.append(history.Case(f"slack{ft}-c{clusters}@{off}", bytes(img), ops, mount=dict(encoding="ibm437", offset=off), meta=meta))
+    return out
+
+
 def run(ctx):
+    for case in slack_chain_cases(ctx):
+        from .. import history
+        history.run_case(ctx, case, oracles=ORACLES, use_model=False)
+        ctx.dist["slack-case"] += 1
     _hist.run_histories(ctx, ORACLES, nprog=ctx.scale(24, 400), nops=ctx.scale(30, 80), remount_every=False, extra_cases=auto_size_cases(ctx),
                         mounts=[dict(encoding="ibm437", offset=0), dict(encoding="ibm437", offset=4096, lazy_load=False), dict(encoding="cp850", offset=1536)])
 
